@@ -150,8 +150,8 @@ def allFiles (st : Index) : List Path := ((st.cache.map (·.1)) ++ (st.disk.map 
 /-- import edges of the workspace as the editor sees it (current contents). -/
 def specEdges (st : Index) : List Spec.Edge :=
   (allFiles st).flatMap (fun f =>
-    match st.content f with
-    | some { parsed := some fr, .. } =>
+    match (st.content f).bind Version.effRec with
+    | some fr =>
       fr.imports.filterMap (fun imp =>
         (st.resolveModule imp.modulePath f).map (fun t =>
           { src := f, dst := t, names := if imp.isStar then none else some imp.orig : Spec.Edge })) ++
@@ -689,7 +689,7 @@ def runSpec (c : CaseSt) (t : List String) : Option String :=
   | ["ctx", p, l, _] =>
     -- which path produced the context: the AST path, or the text fallback on a VALID document
     (match st.content (pathOf p) with
-     | some { parsed := some fr, text := t } =>
+     | some { parsed := some fr, text := t, .. } =>
        let target := l.toNat! + 1
        let ast := (decoratorCtx target fr.body).orElse (fun _ => functionCtx (linesOf t.toList) target fr.body)
        if ast.isNone && (ctxFromText asciiLowerStr t.toList target).isSome then some "- FLAGS=text-fallback-on-valid"
